@@ -131,8 +131,24 @@ def repeated_fields():
     return out
 
 
+def long_signatures():
+    """the SIGNATURE header field given as a STRING, which can hold more than the 255 characters a signature may have:
+    a body signature of hundreds of empty structs makes every array element cost as many steps"""
+    out = []
+    V = refwire.Variant
+    for n, e in ((400, 400), (1600, 1600)):
+        sg = 'a(' + '()' * n + 'y)'
+        elems = b''.join(b'\x01' + b'\0' * 7 for _ in range(e))
+        for le in (True, False):
+            body = len(elems).to_bytes(4, 'little' if le else 'big') + b'\0' * 4 + elems
+            fl = [(1, V('o', '/p')), (2, V('s', 'a.b')), (3, V('s', 'M')), (8, V('s', sg))]
+            hdr = refwire.enc('yyyyuua(yv)', [ord('l') if le else ord('B'), 4, 0, 1, len(body), 5, fl], 0, le)
+            out.append(('SIGNATURE field given as a string of %d characters' % len(sg), hdr + b'\0' * ((8 - len(hdr) % 8) % 8) + body, 255))
+    return out
+
+
 def hostile_messages(rng):
-    out = repeated_fields()
+    out = repeated_fields() + long_signatures()
     bodies = [b'', b'\x04\0\0\0' + b'\0' * 12, b'\0\0\0\x04' + b'\1' * 12, b'\xff' * 16, b'\x01\0\0\0\0\0\0\0\x01',
               bytes(range(64)), b'\x10\0\0\0' + b'\0' * 28, b'\0' * 40]
     for sg in HOSTILE_SIGS:
